@@ -7,17 +7,18 @@
 
    Model/JoinSpec.v   the standard SQL join, written from the standard (independent of Model/Sem.v)
    Model/Sem.v        what a backend computes for a join node: sem_join nm ...; nm = "null keys match" is false for the
-                      specification and for the SQLite / PostgreSQL / Polars flavours, true for Pandas (pandas.merge)
+                      specification and for every backend flavour (true is what a plain pandas.merge would do)
    Model/JoinEmul.v   the executors' own emulations: SQLite RIGHT-as-LEFT, SQLite FULL-as-key-table
    Each model is compared with the real executor on every run (harness/props/C16.py); JoinSpec.v is compared with
    SQLite 3.40's native joins.
 
-   FULL STATEMENT vs what holds on the unchanged tree.  The statement holds of every backend whose join is a native SQL
-   join (theorems 1-9).  It is REFUTED -- witness exhibited, guarded version proved -- for
-     Pandas (null keys match null keys) and SQLite FULL (rows with a null key collapse).  SQLite RIGHT (key lists were
-     read against the wrong sides), Pandas CROSS (an empty side was NULL-extended) and Polars FULL (right-only rows lost
-     their key) were found by this check and are repaired in /repo (786497c, 8737d6e, c106ad7 + 5c7bd4d); the models
-     describe the repaired code, and theorems 9 and 12 keep the refutations of the old behaviour. *)
+   FULL STATEMENT vs the tree.  The statement now holds of every backend: native SQL joins (theorems 1-8), SQLite RIGHT
+   rewrite (9), Pandas with its null-key marker (11), Polars (Sem.v under fl_polars).  Found by this check and repaired in
+   /repo: SQLite RIGHT key lists (786497c), Pandas CROSS with an empty side (8737d6e), Polars FULL keys (c106ad7, 5c7bd4d),
+   Polars shared key names / empty `on` (ad5b72b), Pandas leftover suffixed column (756a9c2), Pandas null keys (af27aca),
+   SQLite FULL join on engines >= 3.39 (aad03d8).  What remains REFUTED is the FULL-join emulation that engines older than
+   SQLite 3.39 still get (10: rows with a null key collapse; differently named keys assert); the refutations of the old
+   behaviours are kept as history (9, 11, 12). *)
 From Coq Require Import List Bool Arith ZArith QArith String Permutation.
 Import ListNotations.
 From DA Require Import Base.PyRT Base.Val Model.Sem Model.JoinSpec Model.JoinEmul
@@ -169,22 +170,32 @@ Theorem C16_sqlite_full_join_emulation_asserts :
 Proof. exact sqlite_full_emul_asserts. Qed.
 Print Assumptions C16_sqlite_full_join_emulation_asserts.
 
-(* 11. Pandas: pandas.merge matches a null key with a null key.
-       refuted: one null key on each side.   partial: no null key on one of the sides -> the SQL join. *)
-Theorem C16_pandas_null_keys_match_refuted :
-  exists on_a on_b jt a b, List.length on_a = List.length on_b /\
-    ~ Permutation (rows (pandas_join on_a on_b jt a b)) (sql_join_rows (jt_of jt) (combine on_a on_b) a b).
-Proof. exact pandas_join_null_keys_refuted. Qed.
-Print Assumptions C16_pandas_null_keys_match_refuted.
+(* 11. Pandas: pandas.merge alone matches a null key with a null key; _natural_join_step (since af27aca) adds a marker column
+       to the keys exactly when both sides have a row with a null key.  With it the Pandas join IS the SQL join, for every
+       input.  The plain merge is kept as history: refuted by one null key on each side, and equal to the SQL join when one
+       side has no null key (which is why the marker is needed only then). *)
+Theorem C16_pandas_join_is_sql_join :
+  forall (on_a on_b : list string) (jt : jointype) (a b : table), List.length on_a = List.length on_b ->
+  pandas_join on_a on_b jt a b = sql_join_spec (jt_of jt) (combine on_a on_b) a b.
+Proof.
+  exact (fun on_a on_b jt a b L => eq_trans (pandas_join_is_sem_join on_a on_b jt a b) (sem_join_is_spec on_a on_b jt a b L)).
+Qed.
+Print Assumptions C16_pandas_join_is_sql_join.
 
-Theorem C16_pandas_join_without_null_keys_partial :
+Theorem C16_markerless_merge_null_keys_match_refuted :
+  exists on_a on_b jt a b, List.length on_a = List.length on_b /\
+    ~ Permutation (rows (sem_join true on_a on_b jt a b)) (sql_join_rows (jt_of jt) (combine on_a on_b) a b).
+Proof. exact markerless_merge_null_keys_refuted. Qed.
+Print Assumptions C16_markerless_merge_null_keys_match_refuted.
+
+Theorem C16_markerless_merge_without_null_keys_partial :
   forall (on_a on_b : list string) (jt : jointype) (a b : table), List.length on_a = List.length on_b ->
   no_null_keys (cols a) on_a a \/ no_null_keys (cols b) on_b b ->
-  pandas_join on_a on_b jt a b = sql_join_spec (jt_of jt) (combine on_a on_b) a b.
+  sem_join true on_a on_b jt a b = sql_join_spec (jt_of jt) (combine on_a on_b) a b.
 Proof.
   exact (fun on_a on_b jt a b L G => eq_trans (pandas_join_no_null_keys on_a on_b jt a b G) (sem_join_is_spec on_a on_b jt a b L)).
 Qed.
-Print Assumptions C16_pandas_join_without_null_keys_partial.
+Print Assumptions C16_markerless_merge_without_null_keys_partial.
 
 (* 12. a FULL join has to coalesce its key columns as well: keeping the two key columns apart and coalescing only the shared
        non-key columns (the Polars executor before c106ad7) loses the key of every row found only on the right.
@@ -205,9 +216,8 @@ Print Assumptions C16_full_join_without_key_coalescing_partial.
 (* ------------------------------------------------------------------ non-vacuity *)
 Local Open Scope string_scope.
 (* the flavours of theorem 3 *)
-Example C16_sql_flavours : map f_join_null_match [fl_spec; fl_sqlite; fl_postgres; fl_polars] = [false; false; false; false]
-                           /\ f_join_null_match fl_pandas = true.
-Proof. split; reflexivity. Qed.
+Example C16_sql_flavours : map f_join_null_match [fl_spec; fl_pandas; fl_sqlite; fl_postgres; fl_polars] = [false; false; false; false; false].
+Proof. reflexivity. Qed.
 
 (* duplicate keys, a null key on each side, differently named keys, a shared non-key column with a null on the left *)
 Definition ex_a : table := mktable ["ka"; "x"; "s"] [[VNum 1; VNum 10; VNull]; [VNum 1; VNum 11; VNum 1]; [VNull; VNum 12; VNum 2]; [VNum 2; VNum 13; VNull]].
@@ -234,7 +244,7 @@ Proof.
     repeat (destruct H1 as [<-|H1]; [repeat (destruct H2 as [<-|H2]; [intros E; try reflexivity; discriminate E|]); destruct H2|]). destruct H1.
   - vm_compute. reflexivity.
 Qed.
-Example C16_pandas_guard_example : no_null_keys (cols ex_c) ["k"] ex_c /\ List.length (rows (pandas_join ["k"] ["k"] JFull ex_c ex_b)) = 6%nat.
+Example C16_pandas_guard_example : no_null_keys (cols ex_c) ["k"] ex_c /\ List.length (rows (sem_join true ["k"] ["k"] JFull ex_c ex_b)) = 6%nat.
 Proof.
   split; [|vm_compute; reflexivity]. intros r H. vm_compute in H. repeat (destruct H as [<-|H]; [reflexivity|]). destruct H.
 Qed.
